@@ -27,8 +27,9 @@ META = {
     "level_note": "partial: theorem hypothesis excludes granularity together with read_on_resp (F5). trusted: Lean "
     "kernel, axioms propext/Quot.sound/Classical.choice; amaranth.lib.memory.Memory port semantics as modelled in "
     "TxV/Model/BankMem.lean and MemoryBank.lean (read register with enable, transparency, granularity; exercised, "
-    "not verified); pysim; harness glue. memory_type: default amaranth Memory, plus MultiReadMemory in a few "
-    "correspondence configurations (other multiport memories are C23).",
+    "not verified); pysim; harness glue. memory_type: default amaranth Memory in the theorems; MultiReadMemory, "
+    "MultiportXORMemory, MultiportXORILVTMemory, MultiportOneHotILVTMemory (2 and 3 write ports, no granularity) are "
+    "run against the same ideal-memory model and monitor (their own refinement is C23).",
 }
 
 _sims: dict[tuple, CompSim] = {}
@@ -339,10 +340,26 @@ def gen_cases(ctx: Check):
             cases.append(Case(cfg, gen_ops(rng, d, cyc // 2, 0.8, 0.6, 0.9, distinct=False), d, "malformed"))
         if d["depth"] & (d["depth"] - 1) and rng.random() < 0.7:
             cases.append(Case(cfg, gen_ops(rng, d, cyc // 2, 0.8, 0.6, 0.9, oor=True, hot=False), d, "oor"))
-    # other memory_type values in a few configurations (their own correctness is C23's subject)
-    for t, r in ((0, 0), (1, 0), (0, 1), (1, 1)):
-        d = _desc(rng.choice([3, 4, 5]), 8, 1, 0, t, r, 2, 1, memory_type="MultiReadMemory")
-        cases.append(Case(_cfg(d), gen_ops(rng, d, cyc, 0.9, 0.6, 0.7), d, "random"))
+    # other memory_type values (their own refinement is C23's subject; here the bank on top of them must still be
+    # the ideal memory + queues): 2 and 3 write ports, no granularity, power-of-two depth (all addresses are rows),
+    # the four modes sampled; histories write through every port - the highest-index one in particular - and read
+    # the row back
+    mts = ["MultiReadMemory", "MultiportXORMemory", "MultiportXORILVTMemory", "MultiportOneHotILVTMemory"]
+    modes = [(0, 0), (1, 0), (0, 1), (1, 1)]
+    for mi, mt in enumerate(mts):
+        for wp in ((1,) if mt == "MultiReadMemory" else (2, 3)):
+            for t, r in (modes if ctx.thorough else [modes[(mi + wp) % 4], modes[(mi + wp + 2) % 4]]):
+                d = _desc(rng.choice([4, 8]), 8, 1, 0, t, r, rng.choice([1, 2]), wp, memory_type=mt)
+                ops = []
+                for j in range(wp):  # write row j+1 through port j alone, then read every written row back
+                    ops.append(fmt_op([None] * d["rp"], [False] * d["rp"], [(j + 1, 0x51 + 0x11 * j, 1) if k == j else None for k in range(wp)]))
+                for rnd in range(2):
+                    for j in range(wp):
+                        ops.append(fmt_op([j + 1] * d["rp"], [True] * d["rp"], [None] * wp))
+                    ops.append(fmt_op([None] * d["rp"], [True] * d["rp"], [((j + 1) % wp + 1, 0xA0 + j + rnd, 1) for j in range(wp)]))
+                ops += [fmt_op([None] * d["rp"], [True] * d["rp"], [None] * wp)] * 2
+                ops += gen_ops(rng, d, ctx.pick(60, 600), 0.8, 0.7, 0.6, hot=True)
+                cases.append(Case(_cfg(d), ops, d, "multiport"))
     if ctx.thorough:
         # all histories of length <= 4 of a 2-row, 1-bit, 1r1w bank in every mode
         for t in (0, 1):
